@@ -6,10 +6,10 @@ CONSTANTS
   AsCodedNames = FALSE
   MaxLen = 4
   MaxFiles = 1
-  Alphabet = {65, 98, 46, 32, 42}
+  Alphabet = {65, 98, 46, 32}
 VIEW View
 CONSTRAINT Bound
-INVARIANT Accepted
+PROPERTY Accepted
 INVARIANT UpperLegal
 INVARIANT FoundUnderAnyCase
 INVARIANT ListingOpens
